@@ -337,7 +337,7 @@ func init() {
 		CaseCap: 20 * time.Minute, // compact builds under the race detector: ~20 s idle, minutes on an oversubscribed machine
 		Race:    true, RaceThorough: true,
 		Required: []string{"readers_basic", "readers_basic-mutable", "readers_mutable-overlay", "readers_compact", "concurrent_queries", "polyline_queries", "cache_repeat_lookups",
-			"finish_builds", "finish_clockwise_shared_paths", "pbf_source_builds", "compact_parallel_builds"},
+			"finish_builds", "finish_rejecting_builds", "finish_clockwise_shared_paths", "pbf_source_builds", "compact_parallel_builds"},
 		Run: c35Run,
 	})
 }
@@ -558,6 +558,68 @@ func c35Finish(c *core.Ctx) {
 			c.Violate("finish:result-differs-from-one-core", map[string]any{"cores": cores, "first": ds[0].String()},
 				"the world built with %d cores differs from the one built with 1 core in %d observations, first: %.600s", cores, len(ds), ds[0].String())
 			break
+		}
+	}
+	// the rejecting path: the same source plus invalid features, built with FailInvalidFeatures;
+	// every core count has to report the same broken features as one core does
+	{
+		var pts []*wm.Spec
+		for _, s := range specs {
+			if s.ID.Type == b6.FeatureTypePoint {
+				pts = append(pts, s)
+			}
+		}
+		bad := append([]*wm.Spec{}, specs...)
+		if len(pts) > 0 {
+			for i, nb := 0, r.Range(8, 40); i < nb; i++ {
+				id := b6.FeatureID{Type: b6.FeatureTypePath, Namespace: "diagonal.works/ns/broken", Value: uint64(i + 1)}
+				if r.Bool() {
+					bad = append(bad, &wm.Spec{ID: id, Path: []wm.Elem{{Ref: core.Pick(r, pts).ID}}})
+				} else {
+					bad = append(bad, &wm.Spec{ID: id, Path: []wm.Elem{{Ref: core.Pick(r, pts).ID}, {Ref: b6.FeatureID{Type: b6.FeatureTypePoint, Namespace: b6.NamespaceOSMNode, Value: 999777}}}})
+				}
+			}
+			core.Shuffle(r, bad)
+			broken := func(cores int) (string, error) {
+				o := &ingest.BuildOptions{Cores: cores, FailInvalidFeatures: true}
+				b := ingest.NewBasicWorldBuilder(o)
+				for _, s := range bad {
+					b.AddFeature(s.Ingest())
+				}
+				_, err := b.Finish(o)
+				bf, ok := err.(ingest.BrokenFeatures)
+				if !ok {
+					return "", fmt.Errorf("Finish returned %v, expected ingest.BrokenFeatures", err)
+				}
+				var ids []string
+				for _, f := range bf {
+					ids = append(ids, f.ID.String())
+				}
+				sort.Strings(ids)
+				return strings.Join(ids, " "), nil
+			}
+			want1, err := broken(1)
+			if err != nil {
+				c.Violate("finish:rejecting:one-core", nil, "%v", err)
+				return
+			}
+			for rep := 0; rep < 3; rep++ {
+				var got string
+				if p, cl, fr, _ := core.Protect(func() { got, err = broken(cores) }); p {
+					c.Violate("finish:rejecting:panic@"+fr, nil, "a rejecting Finish with %d cores panicked: %s", cores, cl)
+					return
+				}
+				c.Count("finish_rejecting_builds")
+				if err != nil {
+					c.Violate("finish:rejecting:error-kind", nil, "%d cores: %v", cores, err)
+					return
+				}
+				if got != want1 {
+					c.Violate("finish:rejecting:broken-features-differ-from-one-core", map[string]any{"cores": cores},
+						"FailInvalidFeatures with %d cores reports the broken features {%.300s}, with one core {%.300s}", cores, got, want1)
+					break
+				}
+			}
 		}
 	}
 	var sb strings.Builder
